@@ -120,6 +120,12 @@ Theorem C05_reverse_is_spec : forall o rts now banned m,
 Proof. exact rev_items_spec. Qed.
 Print Assumptions C05_reverse_is_spec.
 
+Theorem C05_all_versions_reverse : forall o rts now banned m,
+  io_all o = true -> ssorted m ->
+  rev_items o rts now banned (rev m) None = rev (filter (fun e => negb (skip_common o rts banned e)) m).
+Proof. exact rev_items_all. Qed.
+Print Assumptions C05_all_versions_reverse.
+
 (* reverse yields the forward result backwards (AllVersions: per key OLDEST first) *)
 Theorem C05_reverse_is_rev_forward : forall o rts now banned m,
   ssorted m -> cut o m = m ->
